@@ -73,8 +73,12 @@ impl OverlayFS {
         let whiteout_path = self.whiteout_path(path)?;
         if whiteout_path.exists()? {
             match whiteout_path.remove_file() {
-                // cleared concurrently by another creator of the same entry
-                Err(error) if matches!(error.kind(), VfsErrorKind::FileNotFound) => {}
+                // cleared concurrently by another creator of the same entry - if it really is gone
+                Err(error) if matches!(error.kind(), VfsErrorKind::FileNotFound) => {
+                    if whiteout_path.exists()? {
+                        return Err(error);
+                    }
+                }
                 other => other?,
             }
         }
